@@ -6,7 +6,9 @@ package zrpc
 // C04 per-call settings win: the options the caller passes to NewClient are applied after the ones derived from the
 // configuration (the configured Timeout among them), in the caller's order - they are the tail of what the internal client gets
 //@ func NewClient
-//@   property C04
+//@   property C04 C07
+//@   results cli, err
+//@   ensures implies(err == nil, cli != nil)
 //@   call NewClient#0: assert len(arg_opts) >= len(options)
 //@   call NewClient#0: assert forall(i.(int), implies(0 <= i && i < len(options), arg_opts[len(arg_opts) - len(options) + i] == options[i]))
 
@@ -27,3 +29,21 @@ package zrpc
 //@   call UnaryTimeoutInterceptor#0: assert arg_timeout == time.Duration(c.Timeout)*time.Millisecond && sameSlice(arg_methodTimeouts, c.MethodTimeouts)
 //@   call AddUnaryInterceptors#6: assert tmo && raw0 == ti
 //@   ensures_local implies(c.Timeout > 0, tmo)
+
+// C07 RpcProxy keeps one client per credential: only a successfully created client is ever stored (a failed dial leaves no
+// entry behind, so the next call dials again); lock invariant of p.lock: every stored client is non-nil
+//@ lockinv (p *RpcProxy) lock: p.clients != nil && forall(k.(string), implies(inDom(p.clients, k), p.clients[k] != nil))
+//@ guarded_by clients
+//@ func NewClientWithTarget
+//@   property C07
+//@   results cli, err
+//@   ensures implies(err == nil, cli != nil)
+//@ func (p *RpcProxy) TakeConn closure 0
+//@   property C07
+//@   results v, err
+//@   requires p != nil
+//@   ensures implies(err == nil, v != nil)
+//@ func NewProxy
+//@   property C07
+//@   ensures result != nil && fresh(result) && fresh(result.singleFlight)
+//@   allocates
